@@ -1,5 +1,6 @@
 import Bclv.Props.C09
 import Bclv.Spec.Tables
+import Bclv.Proofs.Format
 /-!
 # C14 — the version 1.1 bytecode file format is stable
 
@@ -18,6 +19,11 @@ frozen ones.  Here:
 * `layout`: the section structure; `varint_classes`: the size classes of the sqlite4
   varint with their exact byte patterns; `value_layout`: the constant encodings,
   including two's complement for negative integers and IEEE bits for floats;
+* `dump_follows_layout`, `any_file_of_the_layout_loads`, `layout_unambiguous`: the layout
+  written as a relation of its own (`Spec/Format.lean`: `Encodes p bs`, from the format's
+  description alone, the sqlite4 varint as its specification reads, admitting every spelling
+  of a number the specification admits) — `dump p` is such a file, the loader reads every such
+  file as exactly `p`, and a byte string is a file of at most one program;
 * `header_frozen`, `numbering_frozen`: magic, version, type codes, opcode numbering as
   recorded for version 1.1.
 
@@ -130,6 +136,22 @@ theorem value_layout (i : Int64) (b : UInt64) (s : Bytes) (t : Bool) :
 varint `FF FF … FF`. -/
 theorem negative_int_example : valueEnc (.int (-1)) = [1, 255, 255, 255, 255, 255, 255, 255, 255, 255] := by
   decide
+
+/-- Newly written dumps follow the documented layout. -/
+theorem dump_follows_layout (p : Prog) (hp : p.WF) : Format.Encodes p (dump p) := Format.dump_encodes p hp
+
+/-- An independent decoder recovers exactly the program's parts: whatever byte string the
+documented layout admits as a file of `p` is loaded as `p`. -/
+theorem any_file_of_the_layout_loads (p : Prog) (bs trailing : Bytes) (h : Format.Encodes p bs) :
+    load (bs ++ trailing) = .ok p := Format.load_of_encodes p bs trailing h
+
+theorem layout_unambiguous (p q : Prog) (bs : Bytes) (hp : Format.Encodes p bs) (hq : Format.Encodes q bs) : p = q :=
+  Format.encodes_unique p q bs hp hq
+
+/-- The relation is not the encoder in disguise: the specification also admits the number 5
+written in four bytes (`FA 00 00 05`), which `Dump` never writes and `Load` reads all the same. -/
+example : Format.Varint 5 [250, 0, 0, 5] ∧ uvEnc 5 = [5] ∧ uvDec [250, 0, 0, 5] = some (5, []) :=
+  ⟨Format.Varint.be 3 [0, 0, 5] (by decide) (by decide) rfl, by decide, by decide⟩
 
 theorem header_frozen : magic = [0xFC, 0x6C] ∧ verMajor = 1 ∧ verMinor = 1 := ⟨rfl, rfl, rfl⟩
 
